@@ -192,23 +192,25 @@ ALL = ["C%02d" % i for i in range(1, 21)]
 
 # shared premises: rules of sibling properties that run inside this check (DESIGN §0.3) and rules added after the plan
 EXTRA = {
+    "C18": "Also: a generator that walks as_completed(...) relays the completion order to its consumers, which are judged like consumers of as_completed.",
+    "C14": "Also: hand-rolled memo tables (K7), a newly memoised function with object arguments must key on what its body reads (K1(e)); the retained path's attached tree is decided on the calls the pass makes, however it is written.",
     "C01": "Shared premises run inside this check: proposal accounting (C08.B/S/F), cache keys and memoisation (C14.K1-K4), the specified density (C03.T1-T3), the permutation distribution (C09.P1-P4), reference semantics of the tree editor (TS), deep copies and refresh pairing (C06.M1/M2/M4).",
     "C02": "Also: reference semantics of Tree.update and the payload methods (TS); content-hash keys of the memoised recursion (C14.K2-K4); the floor covers non-positive entries and is tiny.",
     "C03": "Also: reference semantics of the tree queries the densities read (TS).",
     "C04": "Also: subtree move known finding F11 (P3). Shared premises: refresh pairing (C06.M1/M2), deep copies (C06.M4), the specified density (C03.T1-T3), reference semantics of the tree editor (TS), linear use of data points (C07.L1).",
-    "C05": "Also: the per-genotype array has exactly one slot per genotype.",
+    "C05": "Also: the per-genotype array has exactly one slot per genotype. Also: no hand-rolled memo table keyed on fewer inputs than the function has (C14.K7); the genotype tables are compared modulo raising paths.",
     "C06": "Also: reference semantics of every editor method (TS), relabelling keeps data with its node (C07.V2), memoisation premises (C14.K2-K4).",
     "C07": "Also: reference semantics of the editor (TS), whole-tree reset guarded by tree equality (R0), label discipline (N0); shared premises: deep copies (C06.M4), proposal arms extend a copy of the parent by exactly the new point (C08.A1/A2/X1).",
     "C08": "Also: the adapted outcome is accounted for both placements it covers (existing clone, outlier set); an arm starts from an empty tree only without a parent (A2); reference semantics of the tree editor (TS).",
     "C10": "Also: the traceback's early return is for childless nodes only; the per-sample budget decrement; shared premise: the networkx copy holds every node (C12.N1).",
     "C11": "Also: the report that is written is the ranked frame, the archive is cut from the same frame and dictionary (A6); shared premises: Tree.__eq__/__hash__ (C03.I1/I2) and the clade helpers (TS).",
     "C12": "Also: every (clone, sample) group is returned whether or not the clone has a CCF; shared premises: the MAP traceback and output formulas (C10.X1-X5).",
-    "C13": "The returned value is compared modulo tiny positive floors (their presence is C19.T5's business).",
-    "C15": "Also: reserved entries of the dictionary form; shared premises: assigning alpha refreshes what is derived from it (C13.U3), log_p_one is the specified density (C03.T1-T3).",
+    "C13": "The returned value is compared modulo tiny positive floors (their presence is C19.T5's business). Also: the chain's shared objects are handed on by reference, never through a copying unpack (U4); the update call site is read with local aliases spelt out.",
+    "C15": "Also: reserved entries of the dictionary form; shared premises: assigning alpha refreshes what is derived from it (C13.U3), log_p_one is the specified density (C03.T1-T3). Also: the pickling protocol (__reduce__ / __getstate__) carries every attribute __init__ sets (D4).",
     "C16": "Also: reference semantics of the clade helpers and the consensus helpers relabel / roots / clean_tree / from_dict_nx / get_tree_from_consensus_graph (TS). Known finding F9 (S6).",
-    "C17": "Also: a documented filter or default that runs only under a size test (row / sample / mutation counts) is reported.",
+    "C17": "Also: a documented filter or default that runs only under a size test (row / sample / mutation counts) is reported. Also: `if M.any(): df = df[~M]` is read as the unconditional filter and its predicate classified; hand-rolled memo tables in the load path (C14.K7).",
     "C19": "Also: the concentration is floored on every arm (T5; defect F12 repaired). Shared premises: linear use (C07.L1), floor before log (C02.N4), the specified density (C03.T1-T3), deep copies of recorded forms (C06.M4), reference semantics of the editor (TS), proposal threshold chains (C08.B/S/F).",
-    "C20": "Also: a reader that takes end-of-stream as end-of-data is reported (P0).",
+    "C20": "Also: a reader that takes end-of-stream as end-of-data is reported (P0). Also: repository decorators on the commands and the exit status of handlers (a handler that exits with status 0 swallows); a writer helper called once from create_main_run_output is followed.",
 }
 
 
